@@ -160,8 +160,13 @@ def check_field(I, chk, cfg, struct, path, term, exp, outcome, flag_leaves):
     want = ("sext" if signed else "bits", off, w)
     if core != want:
         # sentinel branch of an inlined Option: ('none',) under a guard on the right bits
-        if term == ("none",) and ("bits", off, w) in outcome.guard:
+        if term == ("none",) and (("bits", off, w) in outcome.guard or ("sext", off, w) in outcome.guard):
             return chk.ob(True)
+        # a value computed in the message parser itself from this field alone (`raw as f32 / 10.0`):
+        # the position is right; the value is C10/C11's business
+        ss = sources(term)
+        if k0 not in ("enum", "flag") and ss and all(x == want for x in ss) and term[0] in ("float", "some"):
+            return chk.ob(True, sample={"field": struct + "." + path, "bits": [off, w], "via": ["inline expression"]})
         return bad("wrong source bits" if core[0] in ("bits", "sext") else "not derived from a single bit field")
     extra = [s for s in sources(term) if s != want]
     if extra and not (struct == "LongRangeAisBroadcastMessage" and all(s == ("bits", 0, 6) for s in extra)):
